@@ -54,4 +54,11 @@ CHECKS = {
         "optimiser's re-evaluation at the optimised parameters; covariance against the oracle's own SVD with a conditioning-aware tolerance.",
    note="Trusted base: vf/ref/objective.py, numpy SVD. Ill-conditioned references (kappa>1e8), NNLS groups in the F13 regime and singular values at the cut-off are skipped and counted.",
    technique="runtime monitoring: recorders on create_result / covariance + consistency oracle over real optimisation results"),
+ "C08": dict(category="exploration",
+   text="For each item kind x interval class x axis class the affected set is read off the Result of a real one-evaluation optimisation (exact zeros, exact "
+        "proportionality, weight values, a base-4 positional code of the area sum) and judged against set-valued admissible outcomes Inside <= S <= Nearest; "
+        "nested interval pairs decide monotonicity, zero/only pairs complementarity, dataset+model weight the precedence rule and its single warning. The interval "
+        "classes enumerate the statement's cases; axes and bounds within a class are sampled.",
+   note="Trusted base: vf/ref/intervals.py (30 lines), generic data making unaffected clps distinguishable. Multiplicity of overlapping listed intervals is not judged.",
+   technique="runtime monitoring: observable affected sets read from results of real optimisations, judged by a set-valued oracle; recorders on the interval code"),
 }
